@@ -25,6 +25,9 @@ def instances(tier):
 def run(tier, replay=None):
     run = C.Run(PID, tier, "model_checking")
     cases = R.run_instances(run, "c17_" + tier, instances(tier), R.has_roll)
+    # the first records arrive simultaneously from several threads (released by a barrier)
+    for mn in (0, 1, 2):
+        R.concurrent_traces(run, "c17", "startup", mn, 60 if tier == "quick" else 1500)
     if not run.mismatches and run.nontrivial < 50:
         raise C.ToolError("vacuous run")
     run.exhaustive = True
@@ -32,6 +35,9 @@ def run(tier, replay=None):
                 "1..3 units, append and truncate mode, up to 2 restarts, all record sequences; the directory after "
                 "every append shows whether and when the single rotation of a lifetime happened and that the "
                 "pre-existing content became the newest archive; non-trivial = a rotation happened")
-    run.assumptions = ["simultaneous first appends from several threads are serialised by the appender's mutex; "
-                       "the threaded scenario is part of the thorough tier (see DESIGN.md)"]
+    run.rule += ("; plus seeded scenarios of 2-4 real threads released together by a barrier, each appending 1-3 records "
+                 "over pre-existing files of -/0/1/2/3 units with min_size 0/1/2: the trace (start / end events emitted "
+                 "under the appender's mutex, directory parsed at the end of every append) is validated against "
+                 "Rolling.tla with TLC")
+    run.assumptions = ["thread schedules are sampled (barrier + seeded yields), not enumerated"]
     return run.finish()
